@@ -3,6 +3,7 @@ package crypto
 
 import (
 	"encoding/hex"
+	"errors"
 	"fmt"
 
 	"github.com/jcmturner/gokrb5/v8/crypto/etype"
@@ -95,6 +96,9 @@ func GetKeyFromPassword(passwd string, cname types.PrincipalName, realm string, 
 			if err != nil {
 				return key, et, fmt.Errorf("error unmashaling PA Data to PA-ETYPE-INFO2: %v", err)
 			}
+			if len(eti) < 1 {
+				return key, et, errors.New("PA-ETYPE-INFO does not contain any entries")
+			}
 			if etypeID != eti[0].EType {
 				et, err = GetEtype(eti[0].EType)
 				if err != nil {
@@ -111,6 +115,9 @@ func GetKeyFromPassword(passwd string, cname types.PrincipalName, realm string, 
 			err := et2.Unmarshal(pa.PADataValue)
 			if err != nil {
 				return key, et, fmt.Errorf("error unmashalling PA Data to PA-ETYPE-INFO2: %v", err)
+			}
+			if len(et2) < 1 {
+				return key, et, errors.New("PA-ETYPE-INFO2 does not contain any entries")
 			}
 			if etypeID != et2[0].EType {
 				et, err = GetEtype(et2[0].EType)
